@@ -82,7 +82,7 @@ MUTANTS = {
         ("ceos_alos2/xarray.py", "        with self.lock:\n            return self.array[key]", "        return self.array[key]"),
         ["C19"],
     ],
-    "m-c19-nolock-only": [("ceos_alos2/xarray.py", "        with self.lock:\n            return self.array[key]", "        return self.array[key]"), []],
+    "m-c19-nolock-only": [("ceos_alos2/xarray.py", "        with self.lock:\n            return self.array[key]", "        return self.array[key]"), ["C19"]],
     "m-c19-lockleak": [("ceos_alos2/xarray.py", "        with self.lock:\n            return self.array[key]", "        self.lock.acquire()\n        result = self.array[key]\n        if key and isinstance(key[0], int):\n            return result\n        self.lock.release()\n        return result"), ["C19"]],
     "m-c12-dtype": ("ceos_alos2/xarray.py", "self.dtype = np.dtype(array.dtype)", "self.dtype = array.dtype", ["C12"]),
 }
